@@ -27,8 +27,11 @@ RULE = ("expressions and subjects over code points {a b c A B e-acute E-acute % 
         "keys, deletes and re-inserts in random order, requests derived from the rules; collations ai_ci and bin; non-trivial = at least one "
         "wildcard, escape or rule; distinct by content")
 ASSUMPTIONS = ["strings are valid UTF-8 and shorter than 65535 bytes (the uint16 truncation branches are not exercised)",
-               "a live access rule is not inserted a second time through the API (MatchNode.Add then replaces the data but leaks the old row in "
-               "Access.rows; the SQL table rejects the duplicate key)"]
+               "an access rule whose PARSED expressions equal those of a live rule ('m\\ain' vs 'main', 'é%' vs 'e%' under ai_ci) is not inserted "
+               "through the API while that rule is live: MatchNode.Add then overwrites the node's data but Access.rows keeps the old row "
+               "(the SQL table rejects such an insert via ExactMatch); deletes by an equivalent spelling are generated and modelled",
+               "SQL-driven histories consist of the statements the tables accepted (dolt_branch_control rejects a row already covered by an "
+               "existing rule with the same permissions)"]
 REQUIRED_TAGS = ["fold-changed", "fold-escape", "fold-multipass", "m1-match", "m1-nomatch", "m1-bin", "m1-casefold", "m1-accent", "m1-escape",
                  "m1-empty-subject", "m1-empty-pattern", "acc-found", "acc-notfound", "acc-tie-union", "acc-longest-wins", "acc-delete",
                  "acc-reinsert", "acc-respelled-key", "acc-sql", "acc-special-in-request", "ns-allowed", "ns-denied", "ns-unrestricted", "ns-delete"]
